@@ -46,10 +46,6 @@ theorem C12_killed_lock_refuses_every_acquisition (pol : Policy) (e : Env) (t : 
     ∃ ev, e.step pol t (.acq m b x) fault = .stepped (if b then .panic else .no) e ev ∧ ev.raw = false := by
   simp [Env.step, hk]
 
-def StepRes.env : StepRes → Env
-  | .stepped _ e _ => e
-  | .blocked e => e
-
 theorem take_killed (s : LockSt) (t : Tid) (m : Mode) : (s.take t m).killed = s.killed := by
   cases m <;> rfl
 theorem release_killed (s : LockSt) (t : Tid) (m : Mode) : (s.release t m).killed = s.killed := by
